@@ -203,6 +203,10 @@ def special_case(kind, bl, rnd):
                "lazy": "if_then_else(c0, lambda: (%s) + 0, 3)\n" % op,
                "ignore": "import pysnark.runtime as _rt\n_rt.ignore_errors(True)\ntry:\n    _u = %s\nfinally:\n    _rt.ignore_errors(False)\n" % op}[first]
         c.op_src = "t = PrivVal(I[1])\n" + pre + "r = " + op
+        if first == "none" and rnd.random() < 0.4:
+            # a fresh secret boolean declared from a Python bool / int / the public side: it is the prover's to choose, and a bit
+            decl = rnd.choice(["PrivValBool(True)", "PrivValBool(False)", "PrivValBool(1)", "PrivValBool(bool(I[1]))", "PubValBool(True)"])
+            c.op_src = "t = %s\nr = %s" % (decl, rnd.choice(["t", "t & c0", "~t", "t | c0", "t ^ t", "LinCombBool(t.lc + 0)"]))
         c.expr = c.op_src
         c.bool_only = True
         c.tid = "bool_typed_fresh:" + first
@@ -228,12 +232,12 @@ def special_case(kind, bl, rnd):
     if kind == "ignore_mode":
         # valid operands, but the user has switched error checking off: the emitted constraints must be just as binding
         from vf.opcases import sample_case
-        pool = [t for t in G.INT_T + G.BOOL_T if t[1] in ("i", "b") and t[0] not in DIV_FAMILY and t[0] not in SKIP and t[0] not in BITWISE_CONST]
+        pool = [t for t in G.INT_T + G.BOOL_T if t[1] in ("i", "b") and t[0] not in SKIP and t[0] not in BITWISE_CONST]
         tid, rty, tmpl = rnd.choice(pool)
         c = sample_case("ignore:" + tid, tmpl, rty, bl, 0, rnd)
         c.precheck_src = c.op_src
         c.op_src = "import pysnark.runtime as _rt\n_rt.ignore_errors(True)\n" + c.op_src
-        c.tid = "ignore_mode"
+        c.tid = tid if tid in DIV_FAMILY else "ignore_mode"        # the division family keeps its id: its classifier needs it
         return c
     if kind == "three_level":
         from vf.opcases import sample_case
